@@ -34,6 +34,19 @@ def as_ast(p_var: Any) -> ast.expr:
         the result will be an AST node of type ast.List.
 
     """
+    # Containers are built element by element, and a float that is not finite directly: the
+    # text python prints for it (`inf`, `nan`) is a name, not a literal.
+    if type(p_var) is list:
+        return ast.List(elts=[as_ast(v) for v in p_var], ctx=ast.Load())
+    if type(p_var) is tuple:
+        return ast.Tuple(elts=[as_ast(v) for v in p_var], ctx=ast.Load())
+    if type(p_var) is dict:
+        return ast.Dict(
+            keys=[as_ast(k) for k in p_var.keys()], values=[as_ast(v) for v in p_var.values()]
+        )
+    if type(p_var) is float and (p_var != p_var or p_var in (float("inf"), float("-inf"))):
+        return ast.Constant(value=p_var)
+
     # If we are dealing with a string, we have to special case this.
     if isinstance(p_var, str):
         p_var = repr(p_var)
